@@ -174,6 +174,15 @@ func (fr *Frame) callStatic(st *State, fn *ssa.Function, args, free []Val, pos t
 	if c := ex.w.contractFor(fn); c != nil && !(fr.depth == 0 && false) {
 		return fr.applyContract(st, fn, c, args, pos)
 	}
+	// library handles whose methods dereference the receiver: calling them on a nil pointer panics
+	if ex.ghost == 0 && !ex.w.inScope(pkg) && fn.Signature.Recv() != nil && len(args) > 0 && args[0].T != nil && args[0].T.Sort == SRef {
+		if _, isPtr := fn.Signature.Recv().Type().(*types.Pointer); isPtr {
+			switch pkg + "." + recvName(fn) {
+			case "bufio.Writer", "bufio.Reader", "bufio.Scanner", "bufio.ReadWriter":
+				fr.safetyNamed(st, "nil", Neq(args[0].T, TNull), pos, "method of a nil *"+pkg+"."+recvName(fn), instr)
+			}
+		}
+	}
 	// modelled library function?
 	if v, ok := fr.intercept(st, fn, pkg, args, pos, instr); ok {
 		return v
